@@ -180,7 +180,7 @@ func r131(c *Ctx, rule string) {
 	gid := c.method("RequestIDMiddleware", "generateID")
 	okU := false
 	for _, cs := range callsIn(gid) {
-		if calleeName(cs.common()) == "github.com/google/uuid.New" {
+		if n := calleeName(cs.common()); n == "github.com/google/uuid.New" || n == "github.com/google/uuid.NewString" || n == "github.com/google/uuid.NewRandom" || n == "github.com/google/uuid.NewV7" {
 			okU = true
 		}
 	}
